@@ -93,7 +93,11 @@ func (c20) Gen(r *Rng, tier string, run int) *Trace {
 			}
 		}
 	}
-	for c, e := range condOf {
+	for _, c := range conds {
+		e, ok := condOf[c]
+		if !ok {
+			continue
+		}
 		g.emit(Op{Obj: c, M: "SetExpression", Args: []Val{vRef(e, r.PickInt(dNative, dNative, dAliasStr))}}, true)
 	}
 	for _, s := range stacks {
